@@ -114,6 +114,33 @@ CHECKS['C07'] = (
     'C08 side conditions (lexical scanner) for sub-check 3; truncations are judged only when tolerant parsing returns',
     '3/C07')
 
+CHECKS['C09'] = (
+    'dedicated constructive generator (run shape x separators x contexts), exhaustive single-separator sweep + Hypothesis',
+    'commands are built with 0..3 bracket and 0..4 brace groups and a drawn attaching/detaching separator before each '
+    'group, in 16 contexts; the oracle is computed by construction: the attached run ends at the first detaching '
+    'separator, every attached group has exactly its source text, and the document serialises to the source minus the '
+    'attaching separators inside the run. Every separator at every position of every shape <=2+2 in every context is '
+    'enumerated; random combinations and unpartnered brackets as text beyond. Exploration.',
+    'the attaching/detaching classification of separators is taken from the property statement (one line break rule)',
+    '3/C09')
+CHECKS['C10'] = (
+    'metamorphic payload substitution over exhaustive short payloads x contexts + Hypothesis',
+    'the tree around a comment must not depend on its payload: for every payload of <=2 (quick) / <=3 (thorough) symbols '
+    'of a 28-symbol hostile alphabet, in 16 contexts x 4 leads x even backslash counts, the canonical tree must equal the '
+    'tree obtained with the payload REF after substituting the comment leaf; odd backslash counts must give an escaped '
+    'percent with live text behind it. Exploration (exhaustive within the payload bound).',
+    'the REF variant of each context is parsed by the code under test (metamorphic relation, not an absolute oracle)',
+    '3/C10')
+CHECKS['C11'] = (
+    'constructive hostile-body generator + differential user-name vs built-in name + grammar fragments with/without skip_envs',
+    'verbatim-like environments with hostile bodies (side conditions enforced by construction) under built-in and '
+    'user-supplied names, at top level and nested in up to 3 environments: single uninterpreted text child equal to the '
+    'body, no arguments, round trip, nothing searchable, no error; user-name and built-in-name documents must have equal '
+    'trees up to the name; generated well-formed fragments must be opaque with the option and parsed into exactly the '
+    'fragment\'s syntax tree without it. Exploration.',
+    'only the placements the statement names (top level, inside named environments)',
+    '3/C11')
+
 PENDING = {}
 
 
